@@ -707,3 +707,35 @@ Proof.
   pose proof (netFlux_length bounds psd g Hwf) as HL. unfold getdXdt.
   rewrite dXdt_of_nth by (auto; lia). rewrite !netFlux_nth by (auto; lia). reflexivity.
 Qed.
+
+(* ---- dissolution index ------------------------------------------------------------------ *)
+(* getDissolutionIndex: the first class at which the cumulative third moment exceeds
+   maxDissolution * total third moment (0 when none does), but at least minIndex *)
+Lemma dissolutionIndex_spec sz psd maxDiss minIndex :
+  let cum := cumMomentFromN Rops sz psd 3 in
+  let frac := maxDiss * momentFromN Rops sz psd 3 in
+  exists i, dissolutionIndex Rops sz psd maxDiss minIndex = Nat.max i minIndex /\
+    (forall j, (j < i)%nat -> (j < length cum)%nat -> nthR cum j <= frac) /\
+    ((exists k, (k < length cum)%nat /\ frac < nthR cum k) -> (i < length cum)%nat /\ frac < nthR cum i) /\
+    ((forall k, (k < length cum)%nat -> nthR cum k <= frac) -> i = 0%nat).
+Proof.
+  intros cum frac. unfold dissolutionIndex. fold cum. Rnorm. fold frac.
+  set (mask := map (fun c => Rltb frac c) cum).
+  assert (Hn : forall j, (j < length cum)%nat -> nth j mask false = Rltb frac (nthR cum j)).
+  { intros j Hj. unfold mask. rewrite (nth_indep _ false (Rltb frac 0)) by (rewrite map_length; lia).
+    rewrite (map_nth (fun c => Rltb frac c)). reflexivity. }
+  exists (argmax_first mask). split; [reflexivity|]. unfold argmax_first.
+  destruct (find_first mask) as [i|] eqn:E.
+  - apply find_first_spec in E. destruct E as (Hi & Ht & Hf). unfold mask in Hi. rewrite map_length in Hi.
+    repeat split.
+    + intros j Hj Hjl. specialize (Hf j Hj). rewrite Hn in Hf by lia. Rbool. lra.
+    + exact Hi.
+    + rewrite Hn in Ht by lia. Rbool. lra.
+    + intros Hall. destruct i as [|i]; [reflexivity|]. exfalso.
+      rewrite Hn in Ht by lia. Rbool. specialize (Hall (S i) Hi). lra.
+  - pose proof (proj1 (find_first_none mask) E) as Hnone. unfold mask in Hnone at 1. rewrite map_length in Hnone.
+    repeat split.
+    + intros j Hj. lia.
+    + destruct H as (k & Hk & Hlt). specialize (Hnone k Hk). rewrite Hn in Hnone by lia. Rbool. lra.
+    + destruct H as (k & Hk & Hlt). specialize (Hnone k Hk). rewrite Hn in Hnone by lia. Rbool. lra.
+Qed.
